@@ -1,9 +1,13 @@
 ------------------------------ MODULE MC_Routing ------------------------------
 (* Bounded instance of RoutingModel for C11 / C12.                                                                 *)
 (*                                                                                                            *)
-(* Graphs: meshes on NSites ROADMs; every unordered pair of sites is either not linked or linked by a fibre   *)
-(* pair of 100, 200 or 300 km (no parallel links).  A mesh is the base-4 number of its link digits, so        *)
-(* 0..4^(NSites(NSites-1)/2)-1 enumerates ALL weighted meshes - connected or not, 4 096 for 4 sites.          *)
+(* Graphs: meshes on NSites ROADMs; every unordered pair of sites is either not linked (digit 0) or linked,    *)
+(* without parallel links, by one of four kinds of link pair (LinkKm): 1 a PATCH of 0 km - the two ROADMs are *)
+(* connected back to back through an amplifier only, as two ROADMs of one office: an OMS without any fibre -, *)
+(* 2 a 50 km span, 3 a 140 km span (one long span: fewer elements but more kilometres than 2 x 50 km through  *)
+(* an intermediate ROADM), 4 a 300 km link that auto-design splits into two spans.  A mesh is the base-5      *)
+(* number of its link digits, so 0..5^(NSites(NSites-1)/2)-1 enumerates ALL meshes - connected or not,        *)
+(* 125 for 3 sites, 15 625 for 4 sites.                                                                       *)
 (*                                                                                                            *)
 (* Batches explored on a mesh                                                                                 *)
 (*   singles   one request, every (src, dst) of SrcDst, every include list of <= 2 distinct ROADMs, every     *)
@@ -12,7 +16,9 @@
 (*             ROADM (LinePer seeded draws per mesh)                                                          *)
 (*   twins     the same request twice (the pipeline aggregates them)                                          *)
 (*   pairs     two requests declared disjoint (every third with a free rider request, every fifth with the    *)
-(*             group stated twice); triples: one group of three; overlaps: groups {1,2} and {2,3}             *)
+(*             group stated twice, every fourth with one member all-LOOSE and the other all-STRICT, in both   *)
+(*             orders of the vector); triples: one group of three; overlaps: two groups sharing one request,  *)
+(*             the shared request first / last / in between in the vectors                                    *)
 (* With GroupsExhaustive the pairs are ALL pairs of requests with include lists of <= 1 ROADM (used with      *)
 (* NSites = 3); otherwise groups are seeded draws (a small linear congruential generator written in TLA+).    *)
 EXTENDS RoutingModel, Json, RoutingSample
@@ -27,16 +33,18 @@ CONSTANTS NSites,            \* number of ROADM sites
 
 Nodes  == 1..NSites
 NPairs == (NSites * (NSites - 1)) \div 2
-RECURSIVE Pow4(_)
-Pow4(k) == IF k = 0 THEN 1 ELSE 4 * Pow4(k - 1)
+Base   == 5
+LinkKm == <<0, 50, 140, 300>>          \* digit 1..4 -> fibre kilometres of the link (0: amplifier-only patch)
+RECURSIVE PowB(_)
+PowB(k) == IF k = 0 THEN 1 ELSE Base * PowB(k - 1)
 PairIdx(a, b) == LET lo == MinI(a, b)
                      hi == MaxI(a, b)
                  IN  ((lo - 1) * (2 * NSites - lo)) \div 2 + (hi - lo - 1)
-Digit(m, k)   == (m \div Pow4(k)) % 4
+Digit(m, k)   == (m \div PowB(k)) % Base
 GraphOf(m) ==
   LET arcs == {a \in Nodes \X Nodes : a[1] # a[2] /\ Digit(m, PairIdx(a[1], a[2])) # 0}
-  IN  [id |-> m, n |-> NSites, arcs |-> arcs, len |-> [a \in arcs |-> 100 * Digit(m, PairIdx(a[1], a[2]))]]
-MeshIds  == IF UseSample THEN SampleMeshIds ELSE 0..(Pow4(NPairs) - 1)
+  IN  [id |-> m, n |-> NSites, arcs |-> arcs, len |-> [a \in arcs |-> LinkKm[Digit(m, PairIdx(a[1], a[2]))]]]
+MeshIds  == IF UseSample THEN SampleMeshIds ELSE 0..(PowB(NPairs) - 1)
 MCGraphs == {GraphOf(m) : m \in MeshIds}
 
 \* ---- a small generator: x -> (4093 x + 7) mod 65521 stays below 2^31
@@ -106,11 +114,17 @@ LineShapes  == <<3, 3, 5, 6, 7, 8>>
 GroupShapes == <<0, 1, 2, 2, 3, 4, 5, 6>>
 Lines(G)  == {Batch(<<RndReq(G, Seed(G.id, k, 1), LineShapes)>>, <<>>) : k \in 1..LinePer}
 Twins(G)  == {LET r == RndReq(G, Seed(G.id, k, 2), GroupShapes) IN Batch(<<r, r>>, <<>>) : k \in 1..TwinPer}
+Relabel(r, l) == Rq(r.s, r.d, r.inc, [k \in 1..Len(r.inc) |-> l])
+IncShapes == <<2, 3, 4, 5, 6>>          \* never empty
 Pairs(G)  == {LET r1 == RndReq(G, Seed(G.id, k, 3), GroupShapes)
                   r2 == RndMate(G, r1, Seed(G.id, k, 4), GroupShapes)
                   r3 == RndReq(G, Seed(G.id, k, 5), GroupShapes)
+                  q1 == RndReq(G, Seed(G.id, k, 3), IncShapes)
+                  q2 == RndMate(G, q1, Seed(G.id, k, 4), IncShapes)
               IN  IF k % 3 = 0 THEN Batch(<<r1, r2, r3>>, <<<<1, 2>>>>)
                   ELSE IF k % 5 = 0 THEN Batch(<<r1, r2>>, <<<<1, 2>>, <<2, 1>>>>)
+                  ELSE IF k % 4 = 1 THEN Batch(<<Relabel(q1, 0), Relabel(q2, 1)>>, <<<<1, 2>>>>)
+                  ELSE IF k % 4 = 2 THEN Batch(<<Relabel(q1, 1), Relabel(q2, 0)>>, <<<<1, 2>>>>)
                   ELSE Batch(<<r1, r2>>, <<<<1, 2>>>>) : k \in 1..PairPer}
 Triples(G) == {LET r1 == RndReq(G, Seed(G.id, k, 6), GroupShapes)
                    r2 == RndMate(G, r1, Seed(G.id, k, 7), GroupShapes)
@@ -119,7 +133,10 @@ Triples(G) == {LET r1 == RndReq(G, Seed(G.id, k, 6), GroupShapes)
 Overlaps(G) == {LET r1 == RndReq(G, Seed(G.id, k, 9), GroupShapes)
                     r2 == RndMate(G, r1, Seed(G.id, k, 10), GroupShapes)
                     r3 == RndMate(G, r1, Seed(G.id, k, 11), GroupShapes)
-                IN  Batch(<<r1, r2, r3>>, <<<<1, 2>>, <<2, 3>>>>) : k \in 1..OverlapPer}
+                IN  Batch(<<r1, r2, r3>>, CASE k % 4 = 0 -> <<<<1, 2>>, <<2, 3>>>>      \* shared: last, then first
+                                            [] k % 4 = 1 -> <<<<1, 2>>, <<1, 3>>>>      \* shared: first in both
+                                            [] k % 4 = 2 -> <<<<2, 1>>, <<3, 1>>>>      \* shared: last in both
+                                            [] OTHER     -> <<<<1, 3>>, <<2, 1>>>>) : k \in 1..OverlapPer}
 
 \* ---- exhaustive pairs (small NSites): all end points, include lists of <= 1 ROADM, both labels
 SmallReqs == UNION {{Rq(sd[1], sd[2], <<>>, <<>>)} \cup {Rq(sd[1], sd[2], <<n>>, <<l>>) : n \in Nodes, l \in {0, 1}} :
